@@ -479,7 +479,7 @@ func c08PathFilter(c *Ctx, m map[string]interface{}, path string, specs []string
 
 func c08Run(c *Ctx) {
 	mustBeDefault(c)
-	c.S.Rule = "part 1 (search): every Map template with <= N nodes over keys {a,bbbb,k} plus the sibling family {a:[M1,M2]} (Mi every map template with <= 4 nodes over {a,k}) (lists, list-in-list, empty containers, unique leaves) x keys {a,b,k,z,*}: ValuesForKey/ValueForKey vs reference, PathsForKey as a set, PathForKeyShortest minimal, and values-through-paths = ValuesForKey. part 2 (filters): every Map template with <= M nodes over keys {a,k} with typed leaves {\"s\",1,true} x key/path x every set of 1..2 sub-key conditions over {a (maybe present), z (absent)} x {matching, non-matching, *} x {untyped, :string, :bool, :num} x {plain, negated}, under field separators ':' and '|' (plus sub-key texts that are well formed under both separators with different meanings, used under one separator after the other, back and forth): filtered result = maps of the unfiltered result satisfying the reference predicate. Each case runs under ascending and descending map order; cases that range over >= 2 keys are also explored under every single order deviation (E-choice bound 1). Result slices are retained (last 16) and re-checked after every later call. non-trivial = key present (part 1) / filter keeps a proper non-empty subset (part 2)."
+	c.S.Rule = "part 1 (search): every Map template with <= N nodes over keys {a,bbbb,k} plus the sibling family {a:[M1,M2]} (Mi every map template with <= 4 nodes over {a,k}) (lists, list-in-list, empty containers, unique leaves) x keys {a,b,k,z,*}: ValuesForKey/ValueForKey vs reference, PathsForKey as a set, PathForKeyShortest minimal, and values-through-paths = ValuesForKey. part 2 (filters): every Map template with <= M nodes over keys {a,k} with typed leaves {\"s\",1,true} x key/path x every set of 1..2 sub-key conditions over {a (maybe present), z (absent)} x {matching, non-matching, *} x {untyped, :string, :bool, :num} x {plain, negated}, under field separators ':' and '|' (plus sub-key texts that are well formed under both separators with different meanings, used under one separator after the other, back and forth; number-typed conditions in 22 spellings x 5 type names x plain/negated): filtered result = maps of the unfiltered result satisfying the reference predicate. Each case runs under ascending and descending map order; cases that range over >= 2 keys are also explored under every single order deviation (E-choice bound 1). Result slices are retained (last 16) and re-checked after every later call. non-trivial = key present (part 1) / filter keeps a proper non-empty subset (part 2)."
 	c.S.Assumptions = []string{"negated condition with a concrete value on an absent key: satisfied and not-satisfied readings both accepted", "reference search/filter semantics in harness/c08.go written from the documentation"}
 	n1, n2, ech := 6, 5, 5
 	if c.Thorough {
@@ -682,6 +682,22 @@ func c08Run(c *Ctx) {
 			mxj.SetFieldSeparator()
 		}
 	}
+	// number-typed conditions in every spelling strconv.ParseFloat accepts or rejects: the condition holds
+	// exactly for members whose value equals the float64 the text denotes; a text that is not a number is an error
+	numMap := `{"k":[{"a":8},{"a":10},{"a":16},{"a":1000},{"a":0},{"a":64},{"a":2},{"a":"010"},{"z":10}]}`
+	for _, sp := range []string{"10", "010", "0100", "0010", "08", "0x10", "0X10", "0o10", "0b10", "1_000", "+10", "1e1", "10.0", "-0", "0", "1E3", ".8e1", "8.", "١٠", "1e", "", " 10"} {
+		for _, typ := range []string{"num", "number", "float", "numeric", "float64"} {
+			for _, neg := range []string{"", "!"} {
+				if !c.Mine() {
+					continue
+				}
+				c.S.States++
+				c.S.Evaluations++
+				c.S.Schedules++
+				c08NumSpelling(c, numMap, neg+"a:"+sp+":"+typ, sp, neg == "!")
+			}
+		}
+	}
 	// sub-key sets with two conditions under every order of the condition table (E-choice) on a small family
 	small := []string{`{"k":[{"a":"s","b":1},{"a":"q"},{"b":1}]}`, `{"k":{"a":"s"},"a":{"k":{"a":true}}}`}
 	for _, js := range small {
@@ -700,4 +716,55 @@ func c08Run(c *Ctx) {
 		}
 	}
 	resetOptions()
+}
+
+// c08NumSpelling: one number-typed condition on the key "a" of the members of list k.
+func c08NumSpelling(c *Ctx, js, spec, spelling string, negated bool) {
+	m := fromJSON(js).(map[string]interface{})
+	cas := func() interface{} {
+		return c08Case{Map: json.RawMessage(js), Key: "k", SubKeys: []string{spec}, Pol: rt.OrderPolicy}
+	}
+	want, perr := strconv.ParseFloat(spelling, 64)
+	var got []interface{}
+	var err error
+	st, pan := protect(func() { got, err = mxj.Map(m).ValuesForKey("k", spec) })
+	c.S.Transitions++
+	c.S.Validated++
+	if pan {
+		c.Violate("Map.ValuesForKey(subkeys)", "panic", "number-spelling", cas, nil, st)
+		return
+	}
+	if perr != nil {
+		if err == nil {
+			c.Violate("Map.ValuesForKey(subkeys)", "pure-filter", "number-spelling", cas, nil, fmt.Sprintf("sub-key %q: %q is not a number (%v), yet the call succeeded with %v", spec, spelling, perr, dumpSeq(got)))
+		}
+		return
+	}
+	if err != nil {
+		c.Violate("Map.ValuesForKey(subkeys)", "error-on-wellformed-subkeys", "number-spelling", cas, nil, fmt.Sprintf("sub-key %q: %v", spec, err))
+		return
+	}
+	var exp []string
+	var expAlt []string // negated condition on a member without the key: both readings accepted (see assumptions)
+	for _, e := range m["k"].([]interface{}) {
+		em := e.(map[string]interface{})
+		v, present := em["a"]
+		f, isNum := v.(float64)
+		holds := present && isNum && f == want
+		if negated {
+			if present && !holds {
+				exp = append(exp, dump(e))
+				expAlt = append(expAlt, dump(e))
+			} else if !present {
+				exp = append(exp, dump(e))
+			}
+		} else if holds {
+			exp = append(exp, dump(e))
+			expAlt = append(expAlt, dump(e))
+		}
+	}
+	g := sortedCopy(dumpSeq(got))
+	if !eqStrings(g, sortedCopy(exp)) && !eqStrings(g, sortedCopy(expAlt)) {
+		c.Violate("Map.ValuesForKey(subkeys)", "pure-filter", "number-spelling", cas, nil, fmt.Sprintf("sub-key %q denotes the number %v\n expected=%v\n   actual=%v", spec, want, sortedCopy(exp), g))
+	}
 }
